@@ -106,3 +106,25 @@ func H_C10_Nil(v *sym.V) {
 	k := v.Choice("leaf", len(leaves))
 	v.Assert("non-nil@"+leaves[k].name, leaves[k].f() != nil)
 }
+
+// H_C10_Transparent: annotation-only wrappers leave Error(), the root cause and
+// every Is / As match of the wrapped error unchanged.
+func H_C10_Transparent(v *sym.V) {
+	g := newG(v, sym.REGNN)
+	b := g.BuildTiered("e", 2, gen.RepLeaves, gen.RepWrappers, []gen.Kind{gen.WMark, gen.WWrap, gen.WDomain, gen.WUserPrefix, gen.WSecondary})
+	e := b.Err
+	refs := []error{errors.UnwrapAll(e), e, sentinelPool[0]}
+	if b.MarkRef != nil {
+		refs = append(refs, b.MarkRef)
+	}
+	r := refs[v.Choice("ref", len(refs))]
+	w := g.Wrap("w", b, gen.AnnotWrappers)
+	k := w.Kinds[0].String()
+	v.Assert("annot-text@"+k, w.Err.Error() == e.Error())
+	v.Assert("annot-root@"+k, fmt.Sprintf("%T", errors.UnwrapAll(w.Err)) == fmt.Sprintf("%T", errors.UnwrapAll(e)))
+	if _, nc := r.(gen.UserNonComparable); !nc {
+		v.Assert("annot-is@"+k, sym.Implies(errors.Is(e, r), errors.Is(w.Err, r)))
+	}
+	var t1, t2 *gen.UserPlain
+	v.Assert("annot-as@"+k, sym.Implies(errors.As(e, &t1), errors.As(w.Err, &t2)))
+}
